@@ -100,8 +100,38 @@ func (f *FieldCopyToGenerator) nextField(v string, g func(g *j.Group)) *j.Statem
 	return j.Block(
 		// _, ok := ft.AttrsTypes["key"]
 		j.List(j.Id(v), j.Id("ok")).Op(":=").Id("tf.AttrTypes").Index(j.Lit(f.NameSnake)),
-		j.If(j.Id("!ok")).BlockFunc(f.errAttrMissingDiag).Else().BlockFunc(g),
+		j.If(j.Id("!ok")).BlockFunc(f.errAttrMissingDiag).Else().BlockFunc(func(gr *j.Group) {
+			if f.readsThroughOptionalEmbed() {
+				// The field can not be read through a nil embedded parent, it counts as unset then.
+				// var src []string; if obj.Embedded != nil { src = obj.List }
+				gr.Var().Id(optionalEmbedSource).Id(f.i.WithType(f.GoType))
+				gr.If(j.Id("obj." + f.ParentIsOptionalEmbedFieldName).Op("!=").Nil()).Block(
+					j.Id(optionalEmbedSource).Op("=").Id("obj." + f.Name),
+				)
+			}
+			g(gr)
+		}),
 	)
+}
+
+// optionalEmbedSource is the name of the variable holding the value of a field of a nullable embedded message
+const optionalEmbedSource = "src"
+
+// readsThroughOptionalEmbed returns true for lists, maps and messages which belong to a nullable embedded message
+func (f *FieldCopyToGenerator) readsThroughOptionalEmbed() bool {
+	switch f.Kind {
+	case ObjectKind, PrimitiveListKind, PrimitiveMapKind, ObjectListKind, ObjectMapKind:
+		return f.ParentIsOptionalEmbed && f.OneOfName == ""
+	}
+	return false
+}
+
+// sourceName returns the expression the field value is read from
+func (f *FieldCopyToGenerator) sourceName() string {
+	if f.readsThroughOptionalEmbed() {
+		return optionalEmbedSource
+	}
+	return "obj." + f.Name
 }
 
 // getAttr v, ok := tf.Attrs["name"]
@@ -262,7 +292,7 @@ func (f *FieldCopyToGenerator) genPrimitive() *j.Statement {
 // genObject generates CopyTo statement for a nested message
 func (f *FieldCopyToGenerator) genObject() *j.Statement {
 	m := NewMessageCopyToGenerator(f.Message, f.i)
-	fieldName := "obj." + f.Name
+	fieldName := f.sourceName()
 
 	return f.nextField("a", func(g *j.Group) {
 		if f.OneOfName != "" {
@@ -288,7 +318,7 @@ func (f *FieldCopyToGenerator) genOneOfStub(g *j.Group) {
 }
 
 func (f *FieldCopyToGenerator) genListOrMap() *j.Statement {
-	fieldName := "obj." + f.Name
+	fieldName := f.sourceName()
 
 	var mk j.Code
 
